@@ -211,6 +211,84 @@ func genC12(e *emitter) {
 	facts["token_auth_conditions"] = tokConds
 	facts["authz_challenge_conditions"] = azConds
 
+	// 5. the JWKS handler: which collection is published, what is skipped, what goes into each JWK
+	jwksRange, jwksKey, jwksKid := "?", "?", "?"
+	var jwksSkips []string
+	if fd := p.funcs["idpOpenIDCJWKSHandler"]; fd != nil {
+		ast.Inspect(fd.Body, func(n ast.Node) bool {
+			rs, ok := n.(*ast.RangeStmt)
+			if !ok {
+				return true
+			}
+			jwksRange = p.str(rs.X)
+			ast.Inspect(rs.Body, func(m ast.Node) bool {
+				switch x := m.(type) {
+				case *ast.IfStmt:
+					// a branch that leaves the iteration without publishing (continue / break / goto)
+					skips := false
+					ast.Inspect(x.Body, func(q ast.Node) bool {
+						if _, ok := q.(*ast.BranchStmt); ok {
+							skips = true
+						}
+						return true
+					})
+					if x.Else != nil {
+						ast.Inspect(x.Else, func(q ast.Node) bool {
+							if _, ok := q.(*ast.BranchStmt); ok {
+								skips = true
+							}
+							return true
+						})
+					}
+					if skips {
+						jwksSkips = append(jwksSkips, p.str(x.Cond))
+					}
+				case *ast.BranchStmt:
+					// an unconditional one directly in the loop body is reported too
+					for _, st := range rs.Body.List {
+						if st == ast.Stmt(x) {
+							jwksSkips = append(jwksSkips, "<unconditional "+x.Tok.String()+">")
+						}
+					}
+				case *ast.CompositeLit:
+					if p.str(x.Type) == "jose.JSONWebKey" {
+						for _, el := range x.Elts {
+							if kv, ok := el.(*ast.KeyValueExpr); ok {
+								switch p.str(kv.Key) {
+								case "Key":
+									jwksKey = p.str(kv.Value)
+								case "KeyID":
+									jwksKid = p.str(kv.Value)
+								}
+							}
+						}
+					}
+				}
+				return true
+			})
+			return false
+		})
+	}
+	kidHeader := "?"
+	if tok != nil {
+		ast.Inspect(tok.Body, func(n ast.Node) bool {
+			if ce, ok := n.(*ast.CallExpr); ok {
+				if sel, ok := ce.Fun.(*ast.SelectorExpr); ok && sel.Sel.Name == "WithHeader" && len(ce.Args) == 2 && p.str(ce.Args[0]) == "\"kid\"" {
+					kidHeader = p.str(ce.Args[1])
+					for _, r := range assignmentsTo(tok, kidHeader) {
+						kidHeader = p.str(r)
+					}
+				}
+			}
+			return true
+		})
+	}
+	fmt.Fprintf(&b, "/-- collection `idpOpenIDCJWKSHandler` ranges over -/\ndef jwksRange : Str := %s.toList\n", leanStr(jwksRange))
+	fmt.Fprintf(&b, "/-- `Key` / `KeyID` of every published JWK -/\ndef jwksKey : Str := %s.toList\ndef jwksKid : Str := %s.toList\n", leanStr(jwksKey), leanStr(jwksKid))
+	fmt.Fprintf(&b, "/-- how the token endpoint computes the `kid` header -/\ndef tokenKidHeader : Str := %s.toList\n", leanStr(kidHeader))
+	emitList("jwksSkipConditions", "conditions under which an entry is left out of the JWKS (continue / break inside the loop)", jwksSkips)
+	facts["jwks"] = map[string]interface{}{"range": jwksRange, "key": jwksKey, "kid": jwksKid, "skips": jwksSkips, "token_kid": kidHeader}
+
 	b.WriteString("end KM.Gen.C12\n")
 	e.lean("C12.lean", b.String())
 	e.facts["c12"] = facts
